@@ -68,8 +68,8 @@ def build_factory(cfg):
         orig_loop_start = rec.on_loop_start
 
         def tick():
+            orig_loop_start()          # (logs the status as the previous iteration left it, old clock)
             LogicalClock.t += 1.0
-            orig_loop_start()
         rec.on_loop_start = tick
         store = StoreResultsCallback()
         tuner = Tuner(trial_backend=backend, scheduler=sched, stop_criterion=StoppingCriterion(**cfg["stop"]),
@@ -142,6 +142,15 @@ def configs(tier, seed):
                 out.append(dict(kind="fifo-grid", W=W, R=2, mode="min", seed=seed, profile=prof, stop={"max_num_trials_started": 40},
                                 wait=False, k=1 if tier == "quick" else 2, F=0, max_failures=0, grid_size=gs,
                                 max_exec=150 if tier == "quick" else 2000, **{"async": True}))
+    # search space exhausted while a trial is still running, and the criterion becomes true during that wait
+    for W in (2, 3):
+        for crit in ({"max_num_evaluations": 9}, {"max_wallclock_time": 7.5}, {"max_cost": 4.0}):
+            for prof in tunerx.PROFILES:
+                if prof["burst"] or (tier == "quick" and prof["rr"]):
+                    continue
+                out.append(dict(kind="fifo-grid", W=W, R=4, mode="min", seed=seed, profile=prof, stop=crit, wait=False,
+                                k=1 if tier == "quick" else 2, F=0, max_failures=0, grid_size=W + 1,
+                                max_exec=120 if tier == "quick" else 1500, **{"async": True}))
     # injected scheduler exceptions at every call index up to the horizon
     for kind in ("fifo-random", "hb-promotion"):
         for meth, horizon in (("on_trial_result", 6 if tier == "quick" else 10), ("suggest", 4 if tier == "quick" else 6),
